@@ -366,6 +366,8 @@ class QCow2Snapshot:
     def open(self) -> QCow2:
         disk = copy.copy(self.qcow2)
         disk.l1_table = self.l1_table
+        # The copy inherits the read buffer of the active image, which holds data of a different L1 table
+        disk._buf = None
         disk.seek(0)
         return disk
 
